@@ -37,6 +37,45 @@ Theorem C17_chat_equiv_no_tools : forall P s o1 o2,
 Proof. exact chat_equiv_no_tools. Qed.
 Print Assumptions C17_chat_equiv_no_tools.
 
+(** ** raw requests: fields that are present but empty or null *)
+
+(** two raw requests with the same normal form (stream: absent = null = true; tools: absent = null = []) get the same
+    streamed records and the same non-streamed response, for every parser and every runner output *)
+Theorem C17_request_normalisation : forall q1 q2, norm_raw q1 = norm_raw q2 -> forall P o,
+  chat_stream P (chat_cfg_of q1) o = chat_stream P (chat_cfg_of q2) o /\
+  chat_nonstream P (chat_ns_tools_of q1) o = chat_nonstream P (chat_ns_tools_of q2) o.
+Proof. intros q1 q2 H P o. destruct (norm_raw_cfg q1 q2 H) as [-> ->]. split; reflexivity. Qed.
+Print Assumptions C17_request_normalisation.
+
+(** for every raw request whose tools field is absent, null or an empty list - whatever its stream field - the streamed
+    and the non-streamed response of any two splits carry the same result (the streaming callback and the non-stream
+    parse read "tools requested" the same way: both are [tools_len_pos]) *)
+Theorem C17_chat_equiv_raw_request : forall q, tools_len_pos (q_tools q) = false -> forall P o1 o2,
+  text_of o1 = text_of o2 -> ending o1 = ending o2 ->
+  stream_result (chat_stream P (chat_cfg_of q) o1) = http_result (chat_nonstream P (chat_ns_tools_of q) o2).
+Proof.
+  intros q Hq P o1 o2 Ht He. unfold chat_cfg_of, chat_ns_tools_of. rewrite Hq. apply chat_equiv_no_tools; assumption.
+Qed.
+Print Assumptions C17_chat_equiv_raw_request.
+
+(** the agreement of the sites is needed: if the streaming callback asked `req.Tools != nil` while the non-stream parse
+    asks `len(req.Tools) > 0`, the request {"tools": []} with a tool-call shaped output streams content "" plus a call
+    and answers non-streamed with the text and no call *)
+Theorem C17_tools_site_mismatch_refuted :
+  ~ (forall q P o, stream_result (chat_stream P (mkCc true (tools_non_nil (q_tools q))) o) =
+                   http_result (chat_nonstream P (tools_len_pos (q_tools q)) o)).
+Proof.
+  intros H. specialize (H (mkRaw JAbsent (JVal [])) Pm (mkOut [[33%N]] (FDone [] RStop zeroc))).
+  vm_compute in H. discriminate.
+Qed.
+Print Assumptions C17_tools_site_mismatch_refuted.
+
+Example C17_request_normalisation_nonvacuous :
+  norm_raw (mkRaw JAbsent (JVal [])) = norm_raw (mkRaw JNull JAbsent) /\
+  norm_raw (mkRaw (JVal true) JNull) = norm_raw (mkRaw JAbsent JAbsent) /\
+  norm_raw (mkRaw JAbsent (JVal [[102%N]])) <> norm_raw (mkRaw JAbsent (JVal [])).
+Proof. vm_compute. repeat split; try reflexivity. discriminate. Qed.
+
 (** ** exactly one final message or one error, as the last record of the stream *)
 
 (** full statement: every native stream, however the runner ends *)
